@@ -118,6 +118,14 @@ def c03(tier, seed):
               req({}), req({"S1": F(3), "F4": F(-2)}, measure="lots")]
     kw = dict(bids=(8, 12), spreads=(0, 4), invariants=inv, properties=props)
     ms = []
+    # requests previewed first (Rebalancing.make_trades) and executed later, after quotes may have moved
+    ms.append(model("reb-preview", ["S1", "F4"], ["quote", "prepare", "trade"], 5, fees="dy", dqs=(1,),
+                    reqs=[reqs_a[0], reqs_a[1], reqs_a[5]], maxrebal=1, **kw))
+    # interest accrues between rebalances (whole years, rational factor): targets are sized on the NLV after accrual
+    kwi = dict(kw)
+    kwi.update(bids=(8,), spreads=(0, 8))
+    ms.append(model("reb-interest", ["S1", "F4"], ["quote", "rebal", "accrue"], 4, fees="free", rate=F(1, 8), markup=F(1, 16),
+                    steps=(1,), maxclk=2, reqs=[reqs_a[0], reqs_a[2], req({"S1": F(3, 2)}), req({})], maxrebal=2, **kwi))
     if tier == "quick":
         ms.append(model("reb-dy", ["S1", "F4"], ["quote", "trade", "rebal"], 4, fees="dy", dqs=(-2, 1), reqs=reqs_a, **kw))
         ms.append(model("reb-free", ["S1", "F4"], ["quote", "rebal"], 4, fees="free", reqs=reqs_a[:5], **kw))
